@@ -27,9 +27,68 @@ Definition reads_all (c : cfg) (m : tmode15) : Prop :=
   | _ => True
   end.
 
+(** the names of the class modes are read as written ([C15_names_dom]: the
+    keyword removal of the selector parser changes neither the instantiation
+    property nor a class name; all_classes_mode lists the classes of the
+    instantiation property) *)
+Definition names_ok (c : cfg) (m : tmode15) (G : sgraph) : Prop := C15_names_dom c m G = true.
+
+Lemma names_with_cache b c m G : names_ok c m G -> names_ok (with_cache b c) m G.
+Proof. intros H; exact H. Qed.
+
+Lemma map_unchanged l : forallb kw_unchanged l = true -> map kw_strip l = l.
+Proof.
+  induction l as [|x l IH]; cbn [map forallb]; intros H; [reflexivity|]. apply andb_true_iff in H. destruct H as [H1 H2].
+  apply str_eqb_eq in H1. rewrite (IH H2). exact (f_equal (fun y => y :: l) H1).
+Qed.
+
+Lemma class_pass_names c G O pass st all_mode classes reader :
+  kw_strip (c_tau c) = c_tau c ->
+  (all_mode = true -> tau_all c = c_tau c) ->
+  map kw_strip (if all_mode then all_classes G O pass (c_tau c) else classes) =
+  (if all_mode then all_classes G O pass (c_tau c) else classes) ->
+  class_pass c G O pass st all_mode classes reader = class_pass0 c G O pass st all_mode classes reader.
+Proof.
+  intros H1 H2 H3. unfold class_pass, class_pass0. cbv zeta.
+  destruct all_mode; [rewrite (H2 eq_refl)|]; rewrite H1, H3; reflexivity.
+Qed.
+
+Lemma all_classes_unchanged c G O pass :
+  ord_ok O ->
+  forallb (fun t => negb (str_eqb (sp t) (rc_false (c_tau c))) || kw_unchanged (value_of_term (so t))) G = true ->
+  map kw_strip (all_classes G O pass (c_tau c)) = all_classes G O pass (c_tau c).
+Proof.
+  intros [Ho _] H. apply map_unchanged. apply forallb_forall. intros x Hx.
+  unfold all_classes in Hx. apply in_map_iff in Hx. destruct Hx as [o [<- Ho']].
+  apply (proj1 (dedup_In sterm_eqb sterm_eqb_eq _ _)) in Ho'.
+  apply in_map_iff in Ho'. destruct Ho' as [t [<- Ht]].
+  apply (Permutation_in _ (Ho _ _ _)) in Ht. unfold tau_match in Ht. apply filter_In in Ht. destruct Ht as [Ht E].
+  rewrite forallb_forall in H. specialize (H t Ht). rewrite E in H. exact H.
+Qed.
+
+Lemma run_names c G O m :
+  ord_ok O -> names_ok c m G ->
+  run c m G O = match m with
+                | MClasses cl => run_class G c false cl O
+                | MAll => run_class G c true [] O
+                | MShapeMap _ => run c m G O
+                end.
+Proof.
+  intros Ho Hn. unfold names_ok, C15_names_dom in Hn. destruct m as [cl| |items]; [| |reflexivity].
+  - apply andb_true_iff in Hn. destruct Hn as [Ht Hc]. apply str_eqb_eq in Ht.
+    assert (E : forall pass st reader, class_pass c G O pass st false cl reader = class_pass0 c G O pass st false cl reader).
+    { intros. apply class_pass_names; [exact Ht | discriminate | apply map_unchanged; exact Hc]. }
+    unfold run, run_class. rewrite !E. reflexivity.
+  - apply andb_true_iff in Hn. destruct Hn as [Hn Hg]. apply andb_true_iff in Hn. destruct Hn as [Ht Ha].
+    apply str_eqb_eq in Ht, Ha.
+    assert (E : forall pass st reader, class_pass c G O pass st true [] reader = class_pass0 c G O pass st true [] reader).
+    { intros. apply class_pass_names; [exact Ht | intros _; exact Ha | apply all_classes_unchanged; assumption]. }
+    unfold run, run_class. rewrite !E. reflexivity.
+Qed.
+
 (** (a) *)
 Lemma C15a c G O m :
-  ord_ok O -> dom c G -> mode_ok m ->
+  ord_ok O -> dom c G -> mode_ok m -> names_ok c m G ->
   let r := run c m G O in
   r_ok r = true /\
   Permutation (yields (r_p2 r)) (local_graph (touching (c_inverse c) (targets c G O 2 m) G)) /\
@@ -41,7 +100,7 @@ Lemma C15a c G O m :
        ((0 < c_cap c)%Z /\ ~ reads_all c m /\ exists n, yields (r_p1 r) = firstn n full1))
   end.
 Proof.
-  intros Ho Hd Hm. destruct m as [cl| |items]; cbn [targets reads_all].
+  intros Ho Hd Hm Hn. cbv zeta. rewrite (run_names c G O m Ho Hn). destruct m as [cl| |items]; cbn [targets reads_all].
   - destruct (triples_class c G O false cl Ho Hd) as [A [B [f [C D]]]]. split; [exact A|]. split; [exact B|].
     exists f. split; [exact C|]. destruct D as [D|[D1 [_ D3]]]; [left; exact D | right].
     split; [exact D1|]. split; [lia | exact D3].
@@ -61,9 +120,9 @@ Qed.
 
 (** each statement is delivered once *)
 Lemma C15a_nodup c G O m :
-  ord_ok O -> dom c G -> mode_ok m -> NoDup (yields (r_p2 (run c m G O))).
+  ord_ok O -> dom c G -> mode_ok m -> names_ok c m G -> NoDup (yields (r_p2 (run c m G O))).
 Proof.
-  intros Ho Hd Hm. destruct (C15a c G O m Ho Hd Hm) as [_ [P _]].
+  intros Ho Hd Hm Hnm. destruct (C15a c G O m Ho Hd Hm Hnm) as [_ [P _]].
   eapply Permutation_NoDup; [apply Permutation_sym; exact P|].
   destruct Hd as [_ Hn]. unfold local_graph, touching in *. apply NoDup_map_filter. exact Hn.
 Qed.
@@ -79,13 +138,15 @@ Qed.
 
 (** (b) *)
 Lemma C15b c G O m :
-  ord_ok O -> dom c G -> mode_ok m ->
+  ord_ok O -> dom c G -> mode_ok m -> names_ok c m G ->
   let rc := run (with_cache true c) m G O in
   let rn := run (with_cache false c) m G O in
   Permutation (yields (r_p2 rc)) (yields (r_p2 rn)) /\
   (reads_all c m -> Permutation (yields (r_p1 rc)) (yields (r_p1 rn))).
 Proof.
-  intros Ho Hd Hm. destruct m as [cl| |items]; cbn [reads_all].
+  intros Ho Hd Hm Hn. cbv zeta.
+  rewrite (run_names _ G O m Ho (names_with_cache true c m G Hn)), (run_names _ G O m Ho (names_with_cache false c m G Hn)).
+  destruct m as [cl| |items]; cbn [reads_all].
   - destruct (cache_same_class c G O false cl Ho Hd) as [A B]. split; [exact A|]. intros H. apply B. auto.
   - destruct (cache_same_class c G O true [] Ho Hd) as [A B]. split; [exact A|]. intros H. apply B. auto.
   - destruct (cache_log_map c G O items Ho Hd Hm) as [_ A]. split; [exact A|]. intros _.
@@ -96,14 +157,16 @@ Qed.
 
 (** (c) *)
 Lemma C15c c G O m :
-  ord_ok O -> dom c G -> mode_ok m -> reads_all c m ->
+  ord_ok O -> dom c G -> mode_ok m -> names_ok c m G -> reads_all c m ->
   let rc := run (with_cache true c) m G O in
   let rn := run (with_cache false c) m G O in
   subseq (log_of rc) (log_of rn) /\
   List.length (log_of rc) <= List.length (log_of rn) /\
   NoDup (filter is_fetch (log_of rc)).
 Proof.
-  intros Ho Hd Hm Hr. destruct m as [cl| |items]; cbn [reads_all] in Hr.
+  intros Ho Hd Hm Hn Hr. cbv zeta.
+  rewrite (run_names _ G O m Ho (names_with_cache true c m G Hn)), (run_names _ G O m Ho (names_with_cache false c m G Hn)).
+  destruct m as [cl| |items]; cbn [reads_all] in Hr.
   - apply (cache_log_class c G O false cl Ho Hd). left. exact Hr.
   - apply (cache_log_class c G O true [] Ho Hd). right. reflexivity.
   - destruct (cache_log_map c G O items Ho Hd Hm) as [E _]. cbn zeta. rewrite E.
@@ -125,7 +188,7 @@ Qed.
 
 (** (d) *)
 Lemma C15d c G O m I :
-  ord_ok O -> dom c G -> mode_ok m ->
+  ord_ok O -> dom c G -> mode_ok m -> names_ok c m G ->
   let r := run c m G O in
   let T := targets c G O 2 m in
   (forall id, Profiler.tracked I id = mem_str id T) ->
@@ -133,7 +196,7 @@ Lemma C15d c G O m I :
   annotate_all (c_tau c) (c_inverse c) (local_graph G) I =
   annotate_all (c_tau c) (c_inverse c) (filter (rel (c_inverse c) I) (local_graph G)) I.
 Proof.
-  intros Ho Hd Hm. destruct m as [cl| |items]; cbn [targets].
+  intros Ho Hd Hm Hn. cbv zeta. rewrite (run_names c G O m Ho Hn). destruct m as [cl| |items]; cbn [targets].
   - apply (equals_local_class c G O false cl I Ho Hd).
   - apply (equals_local_class c G O true [] I Ho Hd).
   - apply (equals_local_map c G O items I Ho Hd Hm).
